@@ -191,8 +191,6 @@ Proof.
       repeat (split; [assumption|]). intros _. eapply kid_below; eauto.
 Qed.
 
-Lemma sum_len0_nonneg_dummy : True. Proof. exact I. Qed.
-
 (* ---------- mrca_chains ---------- *)
 Lemma mrca_chains_eq a b t :
   mrca_chains a b t =
